@@ -668,6 +668,9 @@ func seqs40() []*mc.Seq {
 		l40close("c1", "O1", "a"),
 		l40release("c1", "L1"),
 		l40io(ioWrite, "c1", "O1", "a", sidLock, "L1"),
+		// Unlinking the locked, open file: from then on only the opened
+		// files pool resolves its handle (CLOSE replay!).
+		lRemove("a"),
 		lAdvance(pastLease, "lease+1"),
 	}
 	out = append(out, makeSeq("v40-locked-downgrade-upgrade", []string{"C18", "C19"}, map[string]int{"quick": 4, "thorough": 6}, lockedPrefix40, downgradeLetters40))
